@@ -29,7 +29,8 @@ def lean_list(name):
 
 
 mirror = [(lean_list('noArgKeys'), T['noarg_keys'] + T['enter']), (lean_list('delayNames'), T['delay'] + T['default_delay']),
-          (lean_list('oneCharOrBare'), T['flipper']['one_char_or_bare']), (lean_list('dsOnly'), T['duckling_only'])]
+          (lean_list('oneCharOrBare'), T['flipper']['one_char_or_bare']), (lean_list('dsOnly'), T['duckling_only']),
+          (['ALTCHAR', 'ALTSTRING', 'ALTCODE'] + lean_list('oneCharOrBare'), T['flipper']['altchar'] + T['flipper']['text'] + T['flipper']['one_char_or_bare'])]
 for a, b in mirror:
     if sorted(a) != sorted(b):
         print('SELFTEST FAILED: Spec/Ducky.lean and spec/tables.json disagree:', sorted(set(a) ^ set(b)))
